@@ -284,6 +284,15 @@ fn indexopt_after_prefix(prefix: &[usize]) {
         }
         i += 1;
     }
+    // iteration agrees with index(j) across the stride / spill boundary
+    let mut it = c.iter();
+    let mut j = 0;
+    while j < n {
+        assert!(it.next() == Some(m[j]), "C05: iter yields a different element than index(j)");
+        j += 1;
+    }
+    assert!(it.next().is_none(), "C05: iter yields too many elements");
+    drop(it);
     cover!(true, "end reached");
     sym::forget(c);
 }
